@@ -51,15 +51,16 @@ type pushMsg struct {
 type Iv2 struct{ lo, hi time.Time }
 
 type endpoint struct {
-	mu        sync.Mutex
-	sub       string
-	msgs      map[string]*pushMsg
-	inFlight  int
-	maxFlight int
-	successes int
-	viol      []string
-	pushes    int
-	statuses  map[int]int
+	mu            sync.Mutex
+	sub           string
+	msgs          map[string]*pushMsg
+	inFlight      int
+	maxFlight     int
+	successes     int
+	fastSuccesses int
+	viol          []string
+	pushes        int
+	statuses      map[int]int
 }
 
 func (ep *endpoint) v(sig, f string, a ...any) {
@@ -153,12 +154,13 @@ func (ep *endpoint) RoundTrip(req *http.Request) (*http.Response, error) {
 	if ep.inFlight > ep.maxFlight {
 		ep.maxFlight = ep.inFlight
 	}
-	bound := 1 + ep.successes
+	// only a *fast* success (answered in under a second) widens the window
+	bound := 1 + ep.fastSuccesses
 	if bound > 1000 {
 		bound = 1000
 	}
 	if ep.inFlight > bound {
-		ep.v("window-exceeded", "%d pushes in flight although only %d success replies were sent so far (the window starts at 1 and grows by one per fast success)", ep.inFlight, ep.successes)
+		ep.v("window-exceeded", "%d pushes in flight although only %d fast success replies were sent so far (the window starts at 1 and grows by one per fast success)", ep.inFlight, ep.fastSuccesses)
 	}
 	ep.statuses[status]++
 	ep.mu.Unlock()
@@ -177,6 +179,9 @@ func (ep *endpoint) RoundTrip(req *http.Request) (*http.Response, error) {
 		if successStatus(status) {
 			m.acked = true
 			ep.successes++
+			if !slow {
+				ep.fastSuccesses++
+			}
 		}
 	}
 	ep.mu.Unlock()
@@ -221,7 +226,7 @@ func TestC19(t *testing.T) {
 			id := must(e.Client.Subscription.Query().Where(subscription.Name(sub)).OnlyID(e.Ctx))
 			ep := &endpoint{sub: sub, msgs: map[string]*pushMsg{}, statuses: map[int]int{}}
 			// script kinds
-			kind := []string{"all-fast-success", "all-slow-success", "alternating", "failure-burst", "every-status", "ramp", "grow-then-fail"}[i%7]
+			kind := []string{"all-fast-success", "all-slow-success", "alternating", "failure-burst", "every-status", "ramp", "grow-then-fail", "grow-then-slow"}[i%8]
 			nm := 4 + r.Intn(12)
 			if kind == "ramp" {
 				nm = 60 + r.Intn(60)
@@ -234,9 +239,21 @@ func TestC19(t *testing.T) {
 				// walk the combinations deterministically; the first ones make the window
 				// exactly 10 x (number of simultaneous failures) when the failures arrive
 				combos := [][3]int{{9, 1, 0}, {19, 2, 0}, {29, 3, 0}, {9, 1, 2}, {10, 1, 0}, {8, 1, 0}, {19, 1, 0}, {9, 2, 0}, {4, 1, 1}, {29, 2, 1}, {19, 3, 0}, {11, 1, 0}}
-				c := combos[(i/7)%len(combos)]
+				c := combos[(i/8)%len(combos)]
 				grow, failing, extra = c[0], c[1], c[2]
 				nm = grow + failing + extra
+			}
+			slowN := 0
+			if kind == "grow-then-slow" {
+				// grow the window to 1+grow with fast successes, then answer a burst of
+				// pushes slowly-but-successfully (each slow success narrows the window
+				// by one, floor 1; a whole window of them completing together would take
+				// it to 0 or below without the floor), then more fast ones: everything
+				// must still be pushed and acknowledged
+				combos := [][3]int{{1, 2, 3}, {2, 3, 4}, {2, 6, 3}, {4, 5, 5}, {4, 12, 4}, {9, 10, 6}, {9, 25, 3}, {3, 4, 0}}
+				c := combos[(i/8)%len(combos)]
+				grow, slowN, extra = c[0], c[1], c[2]
+				nm = grow + slowN + extra
 			}
 			req := &pubsubpb.PublishRequest{Topic: topic}
 			var ms []*pushMsg
@@ -265,6 +282,10 @@ func TestC19(t *testing.T) {
 							m.script = append(m.script, []int{0, 500, 503}[r.Intn(3)])
 							m.slow = append(m.slow, false)
 						}
+					}
+				case "grow-then-slow":
+					if k >= grow && k < grow+slowN {
+						m.script, m.slow = []int{[]int{200, 201, 202, 204}[r.Intn(4)]}, []bool{true}
 					}
 				case "every-status":
 					// one final status out of 100..599 per message, walking the range across cases
@@ -381,7 +402,7 @@ func TestC19(t *testing.T) {
 				sts = append(sts, s)
 			}
 			sort.Ints(sts)
-			col.Case(evd.FP(kind, nm, sts, ep.pushes), ep.pushes > nm || kind == "ramp" || kind == "all-slow-success")
+			col.Case(evd.FP(kind, nm, sts, ep.pushes), ep.pushes > nm || kind == "ramp" || kind == "all-slow-success" || kind == "grow-then-slow")
 			if i < 3 {
 				col.Sample(map[string]any{"script": kind, "messages": nm, "pushes": ep.pushes, "max_in_flight": ep.maxFlight, "final_statuses": sts})
 			}
